@@ -269,7 +269,7 @@ func runC07(c *eng.Ctx, thorough bool) {
 		c.Clause("R4", "C07.5")
 		type edgeSpec struct {
 			desc, pat string
-			val     bool
+			val       bool
 		}
 		for _, es := range []edgeSpec{
 			{"requested policy not in role's allowed globs", `^github\.com/hashicorp/go-secure-stdlib/strutil\.StrListContainsGlob\(policyutil\.SanitizePolicies\(role\.AllowedPoliciesGlob`, false},
